@@ -299,6 +299,7 @@ def main():
     ap.add_argument("--replay")
     ap.add_argument("--only", help="restrict to runs whose filters contain this substring (debug)")
     a = ap.parse_args()
+    a.only = a.only or os.environ.get("VERIF_ONLY")  # debugging / seeded-change evaluation of one run of a tier
     prop = a.prop.upper()
     seed = int(os.environ.get("VERIF_SEED", "0") or 0)
     workdir = BUILD / "logs" / ("%s-%s" % (prop, a.tier))
